@@ -882,3 +882,64 @@ func RunLoopControls(r *Report) {
 	}
 	r.Floor("loopcontrol", 24)
 }
+
+// RunErrControls runs the error-flow rule on the ctlErr* examples of
+// /verif/controls/errflow.go.
+func RunErrControls(r *Report) {
+	r.Rule("errcontrol: the error-flow rule, run on the must-report and must-pass examples in /verif/controls/errflow.go, reports every function that loses the error of an I/O call (discarded, only tested, overwritten before it is read, ignored result of a helper, go, defer, binary.Write, Read, returned on one path only) and none that reports it or writes to memory only")
+	cw, err := controlWorld(r.verifDir)
+	if err != nil {
+		r.Fail("errcontrol", r.MkKey("errcontrol", "controls", "load"), "-", "cannot load the control package: "+err.Error(), nil)
+		return
+	}
+	var fns []*ssa.Function
+	for _, f := range cw.LibFuncs() {
+		if strings.HasPrefix(f.Name(), "ctlErr") && f.Name() != "ctlErrHelper" && f.Parent() == nil {
+			fns = append(fns, f)
+		}
+	}
+	sort.Slice(fns, func(i, j int) bool { return fnName(fns[i]) < fnName(fns[j]) })
+	sub := NewReport(r.Property, r.Tier, r.verifDir)
+	sub.table = map[string]TableEntry{}
+	sub.known = map[string]KnownFinding{}
+	sub.W = cw
+	func() {
+		defer func() {
+			if x := recover(); x != nil {
+				r.Fatal("errflow panic on the control package: %v", x)
+			}
+		}()
+		ef := &errflow{w: cw, r: sub}
+		ef.computeIOErr()
+		ef.RunErrDrop(fns)
+	}()
+	for _, fn := range fns {
+		reported, total := "", 0
+		for _, o := range sub.Obls {
+			if o.Rule != "errdrop" {
+				continue
+			}
+			parts := strings.Split(o.Key, "|")
+			if len(parts) < 2 || parts[1] != fnName(fn) {
+				continue
+			}
+			total++
+			if o.Status == StViolation && reported == "" {
+				reported = o.Detail
+			}
+		}
+		key := r.MkKey("errcontrol", fn.Name(), "verdict")
+		bad := strings.HasPrefix(fn.Name(), "ctlErrBad")
+		switch {
+		case bad && reported != "":
+			r.OK("errcontrol", key, cw.Pos(fn.Pos()), "reported: "+reported)
+		case bad:
+			r.Fail("errcontrol", key, cw.Pos(fn.Pos()), "this example loses an I/O error and the rule accepts it: the rule is unsound", nil)
+		case reported == "":
+			r.OK("errcontrol", key, cw.Pos(fn.Pos()), fmt.Sprintf("accepted (%d I/O calls)", total))
+		default:
+			r.Fail("errcontrol", key, cw.Pos(fn.Pos()), "this example reports its errors and is flagged: "+reported, nil)
+		}
+	}
+	r.Floor("errcontrol", 14)
+}
